@@ -537,6 +537,72 @@ Proof.
 Qed.
 
 
+(* where the scan stops going down: the entry just below the returned position lies in another file *)
+Lemma tail_scan_prev h rest newtail : forall j fuel r,
+  forallb entry_wf (h :: rest) = true -> efile h <> newtail ->
+  eoff h + N.of_nat j < two32 -> (j < fuel)%nat ->
+  tail_scan fuel (concat (map enc_entry (h :: rest))) (eoff h) newtail (scan_cur (eoff h) j) (eoff h + N.of_nat j) = Ok r ->
+  r < eoff h + N.of_nat j -> eoff h < r ->
+  exists e, nth_error rest (N.to_nat (r - eoff h) - 1) = Some e /\ efile e <> newtail.
+Proof.
+  set (d := eoff h).
+  induction j as [|j IH]; intros fuel r Hwf Hne Hsmall Hfuel E Hlt Hgt.
+  - lia.
+  - destruct fuel as [|k]; [lia|]. cbn [tail_scan] in E.
+    assert (Hc : scan_cur d (S j) = d + N.of_nat j) by (unfold scan_cur, two64, two32 in *; lia).
+    rewrite Hc in E.
+    destruct (N.ltb_spec (d + N.of_nat j) d) as [L|L]; [lia|].
+    replace ((((d + N.of_nat j + two64 - d + 1) mod two64) * 6) mod two64) with (6 * N.of_nat (S j)) in E
+      by (unfold two64, two32 in *; lia).
+    rewrite read6_enc in E by exact Hwf. cbn [nth_error] in E.
+    destruct (nth_error rest j) as [pre|] eqn:EP; [|discriminate].
+    destruct (N.eqb_spec (efile pre) newtail) as [Q|Q]; cbn [negb] in E.
+    + replace ((d + N.of_nat j + two64 - 1) mod two64) with (scan_cur d j) in E
+        by (unfold scan_cur; f_equal; lia).
+      destruct (N.eq_dec r (d + N.of_nat j)) as [Z|Z].
+      * (* the scan went on below position j and came back with j itself: the next step down stopped *)
+        subst r. destruct j as [|j0]; [lia|].
+        destruct k as [|k0]; [lia|]. cbn [tail_scan] in E.
+        assert (Hc0 : scan_cur d (S j0) = d + N.of_nat j0) by (unfold scan_cur, two64, two32 in *; lia).
+        rewrite Hc0 in E. destruct (N.ltb_spec (d + N.of_nat j0) d) as [L0|L0]; [lia|].
+        replace ((((d + N.of_nat j0 + two64 - d + 1) mod two64) * 6) mod two64) with (6 * N.of_nat (S j0)) in E
+          by (unfold two64, two32 in *; lia).
+        rewrite read6_enc in E by exact Hwf. cbn [nth_error] in E.
+        destruct (nth_error rest j0) as [pre0|] eqn:EP0; [|discriminate].
+        destruct (N.eqb_spec (efile pre0) newtail) as [Q0|Q0]; cbn [negb] in E.
+        -- exfalso. replace ((d + N.of_nat j0 + two64 - 1) mod two64) with (scan_cur d j0) in E by (unfold scan_cur; f_equal; lia).
+           pose proof (tail_scan_spec h rest newtail j0 k0 _ Hwf Hne ltac:(fold d; lia) ltac:(lia) E) as [[B1 B2] _]. fold d in B2. lia.
+        -- exists pre0. split; [|exact Q0]. replace (N.to_nat (d + N.of_nat (S j0) - d) - 1)%nat with j0 by lia. exact EP0.
+      * pose proof (tail_scan_spec h rest newtail j k _ Hwf Hne ltac:(fold d; lia) ltac:(lia) E) as [[B1 B2] _]. fold d in B2.
+        apply (IH k r); try assumption; try lia.
+    + inversion E; subst. lia.
+Qed.
+
+(* wherever the scan stops above the bottom, the entry just below lies in another file *)
+Lemma tail_scan_stop h rest newtail j fuel r :
+  forallb entry_wf (h :: rest) = true -> efile h <> newtail ->
+  eoff h + N.of_nat j < two32 -> (j < fuel)%nat ->
+  tail_scan fuel (concat (map enc_entry (h :: rest))) (eoff h) newtail (scan_cur (eoff h) j) (eoff h + N.of_nat j) = Ok r ->
+  eoff h < r ->
+  exists e, nth_error rest (N.to_nat (r - eoff h) - 1) = Some e /\ efile e <> newtail.
+Proof.
+  intros Hwf Hne Hsmall Hfuel E Hgt.
+  destruct (tail_scan_spec h rest newtail j fuel r Hwf Hne Hsmall Hfuel E) as [[B1 B2] _].
+  destruct (N.eq_dec r (eoff h + N.of_nat j)) as [Z|Z]; [|apply (tail_scan_prev h rest newtail j fuel r); try assumption; lia].
+  (* the scan stopped at its very first step *)
+  set (d := eoff h) in *. destruct j as [|j0]; [lia|]. destruct fuel as [|k]; [lia|]. cbn [tail_scan] in E.
+  assert (Hc : scan_cur d (S j0) = d + N.of_nat j0) by (unfold scan_cur, two64, two32 in *; lia).
+  rewrite Hc in E. destruct (N.ltb_spec (d + N.of_nat j0) d) as [L|L]; [lia|].
+  replace ((((d + N.of_nat j0 + two64 - d + 1) mod two64) * 6) mod two64) with (6 * N.of_nat (S j0)) in E
+    by (unfold two64, two32 in *; lia).
+  rewrite read6_enc in E by exact Hwf. cbn [nth_error] in E.
+  destruct (nth_error rest j0) as [pre|] eqn:EP; [|discriminate].
+  destruct (N.eqb_spec (efile pre) newtail) as [Q|Q]; cbn [negb] in E.
+  - exfalso. replace ((d + N.of_nat j0 + two64 - 1) mod two64) with (scan_cur d j0) in E by (unfold scan_cur; f_equal; lia).
+    pose proof (tail_scan_spec h rest newtail j0 k _ Hwf Hne ltac:(fold d; lia) ltac:(lia) E) as [[C1 C2] _]. fold d in C2. lia.
+  - exists pre. split; [|exact Q]. rewrite Z. replace (N.to_nat (d + N.of_nat (S j0) - d) - 1)%nat with j0 by lia. exact EP.
+Qed.
+
 Lemma skipn_concat_enc n : forall l,
   skipn (6 * n) (concat (map enc_entry l)) = concat (map enc_entry (skipn n l)).
 Proof.
